@@ -152,6 +152,17 @@ Section Provider.
     end.
 End Provider.
 
+(* the contract of ExecuteResult: a handler that returns, returns a final state *)
+Definition out_ok (r : req) : Prop :=
+  match r_out r with Returns st => final st = true | Raises => True end.
+Definition reqs_ok (es : list pevent) : Prop :=
+  Forall (fun e => match e with EvReq r => out_ok r | _ => True end) es.
+(* the worker left alone: n rounds of "take the next operation, finish it" *)
+Fixpoint drain (n : nat) : list pevent :=
+  match n with O => [] | S k => EvTake :: EvFinish :: drain k end.
+Definition outstanding (s : pstate) : nat :=
+  (length (p_queue s) + match p_cur s with Some _ => 1 | None => 0 end)%nat.
+
 (* projections of an output stream *)
 Definition resp_of (id : Z) (o : list pout) : list (option info) :=
   flat_map (fun x => match x with OResp i r => if i =? id then [r] else [] | OPart _ => [] end) o.
